@@ -380,6 +380,12 @@ def standin_roundtrip(tier, seed):
             fails.append(dict(args=dict(value=repr(cal), timestamp=cal.timestamp, timestamp_read_back=cal_back.timestamp), failed="roundtrip-value-differs", clause="a Calibration read back from JSON / from its own proto has a different timestamp or metrics"))
     except (ImportError, AttributeError):
         pass
+    try:
+        import cirq_pasqal as _cp
+        used += [_cp.PasqalDevice(qubits=tuple(cirq.NamedQubit.range(2, prefix="q"))), _cp.PasqalDevice(qubits=[cirq.NamedQubit("b"), cirq.NamedQubit("a")]),
+                 _cp.PasqalVirtualDevice(control_radius=2.0, qubits=(_cp.ThreeDQubit(1, 0, 0), _cp.ThreeDQubit(0, 0, 0)))]
+    except ImportError:
+        pass
     for v in used:
         cases += 1
         _laws(v, type(v).__name__, fails, dict(family="values filled by use / long integers / vendor metadata", value=repr(v)[:600]), imp)
